@@ -92,8 +92,8 @@ def run_case(case, ses):
 
     if polyonly and not tolmode:
         # ---- (b) exact optima
-        sp, vp = ses.optimum(P, vs[0], label=name + '/optP')
-        so, vo = ses.optimum(S + Sdefs, vs[0], label=name + '/optS')
+        sp, vp = ses.optimum(P, vs[0], label=name + '/optP', ints=cp.int_vars(vs))
+        so, vo = ses.optimum(S + Sdefs, vs[0], label=name + '/optS', ints=cp.int_vars(vs))
         ses.stats.obligations += 1
         ses.stats.kinds['exact-optimum'] = ses.stats.kinds.get('exact-optimum', 0) + 1
         if sp == 'unknown' or so == 'unknown':
